@@ -38,7 +38,9 @@ Full statement / proved / missing
                              `Frag`    no user hash that the deserializer re-interprets (all keys strings, one of them
                                        `__ptype`): known finding C10-reserved-ptype-key, negation `C10_reserved_key_collision`;
                                        object instances are of the catalogue's types and their attribute names are
-                                       not the reserved keys; and with rich_data=false the value is Data.
+                                       not the reserved keys; a Timespan payload is the text of some duration; and
+                                       with rich_data=false the value is Data (Binary included when the consumer takes
+                                       Binary as it is).  Nothing else is excluded: see "What `Frag` excludes" below.
                            Leaf codecs INSIDE the model: Binary = base64, proved to invert (`unb64_b64`); Timespan =
                            the default format `%D-%H:%M:%S.%-N` as timespantype.go prints and parses it, proved to
                            invert for every number of nanoseconds (`C10_span_codec`); Regexp = the identity on the
@@ -194,9 +196,21 @@ example : ∃ d vals', collect (serialize ⟨true, true, 2⟩ ⟨false, false, 0
   · rename_i d vals' hc
     exact ⟨d, vals', hc, by simpa using collect_len _ _ _ _ hc⟩
 
+/-! ### What `Frag` excludes, exactly
+
+`Frag c v` = `v.noRes ∧ (c.rich = false → v.isData c.bin)`.  `noRes` fails only for
+(a) a user hash whose keys are all strings and include `__ptype` — the known finding; `C10_reserved_key_collision`
+    shows the exclusion is needed, for rich_data=true and false alike;
+(b) an object instance whose type is not in the catalogue or that has an attribute named `__ptype` / `__pvalue`
+    (the second cannot be declared in pcore; the first is the model's catalogue);
+(c) a Timespan payload that is not the default-format text of a duration (not a value at all: `C10_span_canonical`).
+`isData` is the property's own reading for rich_data=false (a Regexp deliberately becomes a String there).  What lies
+outside the theorem for other reasons is outside the MODEL's value type: type definitions shipped in the stream,
+RuntimeValue, types without a string form, cyclic values. -/
+
 /-- the full statement (no exclusion of reserved keys) — false, see `C10_reserved_key_collision` -/
 def C10_roundtrip_full : Prop :=
-  ∀ (o : Opts) (cp : Caps) (v : V), Shared (mkCfg o cp) v → (o.rich = false → v.isData = true) →
+  ∀ (o : Opts) (cp : Caps) (v : V), Shared (mkCfg o cp) v → (o.rich = false → v.isData cp.bin = true) →
     ∃ r, deserialize (serialize o cp v) = .ok r ∧ r.abs = v.abs
 
 
@@ -222,7 +236,7 @@ theorem C10_reserved_key_collision : ¬ C10_roundtrip_full := by
   simp [V.abs, reservedWitness] at ha
 
 /-- the same with rich_data=false (the value is Data): the hypothesis `noRes` cannot be dropped there either -/
-example : reservedWitness.isData = true ∧
+example : reservedWitness.isData false = true ∧
     deserialize (serialize ⟨false, false, 0⟩ ⟨false, false, 0⟩ reservedWitness) = .ok .dflt := ⟨rfl, rfl⟩
 
 /-! ### second tie: the emit discipline regenerated from serializer.go (fact family `serarms`)
